@@ -32,8 +32,10 @@ LEVEL_TEXT = ('static analysis: (D1+D2) skgenome.intersect.idx_ranges is abstrac
               ' the overlapping / contained rows (clipped to the query range in trim mode) (their labels for iter_slices). A second literal '
               "layout has rows nested inside a long one (ends not monotone, queries starting past the last row's end). Several query ranges start"
               ' at 0 (each starts from all rows again); D4 includes equal-valued hits (the summary still sees both) and the no-summary-function '
-              'dispatch on an empty source. Does not decide the row sets of arbitrary tables beyond predicate/side agreement (start column '
-              "sorted, each chromosome's rows contiguous, is the premise).")
+              'dispatch on an empty source. D7 also runs the method GenomicArray.by_ranges on the literal layouts: a query range that selects no '
+              'row is listed iff keep_empty. (The former count of searchsorted call sites and the yield-shape rule of D3 were retired as '
+              'structural.) Does not decide the row sets of arbitrary tables beyond predicate/side agreement (start column sorted, each '
+              "chromosome's rows contiguous, is the premise).")
 TECHNIQUE = "abstract interpretation with symbolic sorted columns (searchsorted as counting atoms, masks as predicate sets); index-kind lint; return-kind rule"
 
 IDX = "skgenome.intersect.idx_ranges"
